@@ -1,0 +1,54 @@
+//go:build verif
+
+package filesystem
+
+// Contracts for atomic file replacement (property C27). Comment-only file:
+// compiled only under the "verif" build tag, contains no code. The "//@"
+// lines are read by /verif/govc. nfsop/fsop/fsopok/fsopfile/fsopname/
+// fsopname2/fsopnum are the file-operation log of the trusted os contracts
+// (govc/externs/os_file.spec): kind 1 CreateTemp, 2 Write, 3 Close, 4 Chmod,
+// 5 rename, 6 Remove.
+
+// The EINTR-retrying renameat wrapper is the logged rename operation: one
+// rename(2) from (oldDirectory, oldPath) to (newDirectory, newPath) that
+// either happened (nil) or left the target untouched (error). Trusted: a loop
+// around the system call; atomicity of rename(2) is the operating system's.
+//@ func renameatNoReplaceRetryingOnEINTR
+//@   opaque
+//@   modifies nfsop, fsop[nfsop], fsopok[nfsop], fsopname[nfsop], fsopname2[nfsop], fsopnum[nfsop], fsopnum2[nfsop]
+//@   ensures nfsop == old(nfsop) + 1 && fsop[old(nfsop)] == 5 && (fsopok[old(nfsop)] <==> result == nil)
+//@   ensures fsopname[old(nfsop)] == oldPath && fsopname2[old(nfsop)] == newPath && fsopnum[old(nfsop)] == oldDirectory && fsopnum2[old(nfsop)] == newDirectory
+//@ func renameatRetryingOnEINTR
+//@   opaque
+//@   modifies nfsop, fsop[nfsop], fsopok[nfsop], fsopname[nfsop], fsopname2[nfsop], fsopnum[nfsop], fsopnum2[nfsop]
+//@   ensures nfsop == old(nfsop) + 1 && fsop[old(nfsop)] == 5 && (fsopok[old(nfsop)] <==> result == nil)
+//@   ensures fsopname[old(nfsop)] == oldPath && fsopname2[old(nfsop)] == newPath && fsopnum[old(nfsop)] == oldDirectory && fsopnum2[old(nfsop)] == newDirectory
+
+// A replacing rename between two paths is exactly one logged rename of those
+// paths (relative to the working directory, AT_FDCWD = -100), and its result.
+//@ func Rename
+//@   modifies nfsop, fsop[nfsop], fsopok[nfsop], fsopname[nfsop], fsopname2[nfsop], fsopnum[nfsop], fsopnum2[nfsop], fsop[nfsop + 1], fsopok[nfsop + 1], fsopname[nfsop + 1], fsopname2[nfsop + 1], fsopnum[nfsop + 1], fsopnum2[nfsop + 1]
+//@   ensures[direct] replace && sourceDirectory == nil && targetDirectory == nil ==> nfsop == old(nfsop) + 1 && fsop[old(nfsop)] == 5 && (fsopok[old(nfsop)] <==> result == nil)
+//@   ensures[direct] replace && sourceDirectory == nil && targetDirectory == nil ==> fsopname[old(nfsop)] == sourceNameOrPath && fsopname2[old(nfsop)] == targetNameOrPath && fsopnum[old(nfsop)] == -100 && fsopnum2[old(nfsop)] == -100
+
+// temp(n0): the name of the temporary file created by the n0-th logged
+// operation.
+//@ spec onTemp(k, n0) bool = fsop[k] == 1 || ((fsop[k] == 2 || fsop[k] == 3) && fsopfile[k] == fsopfile[n0]) || ((fsop[k] == 4 || fsop[k] == 5 || fsop[k] == 6) && fsopname[k] == fsopname[n0])
+
+//@ func WriteFileAtomic
+//@   at call os.CreateTemp assert[tempname] arg0 == pdir(path) && arg1 == atomicWriteTemporaryNamePrefix && nfsop == old(nfsop)
+//@   at call os.CreateTemp assert[tempname] len(atomicWriteTemporaryNamePrefix) >= len(TemporaryNamePrefix) && forall i in 0..len(TemporaryNamePrefix) :: atomicWriteTemporaryNamePrefix[i] == TemporaryNamePrefix[i]
+//@   at call os.(*File).Write assert[data] arg0 == temporary && arg1 == data
+//@   at call os.Chmod assert[mode] arg0 == fname(temporary) && arg1 == permissions
+//@   at call Rename assert[after] arg0 == nil && arg1 == fname(temporary) && arg2 == nil && arg3 == path && arg4
+//@   at call Rename assert[after] nfsop == old(nfsop) + 4 && fsopok[old(nfsop)] && fsopfile[old(nfsop)] == temporary && fsop[old(nfsop) + 1] == 2 && fsopok[old(nfsop) + 1] && fsopfile[old(nfsop) + 1] == temporary && fsopnum[old(nfsop) + 1] == len(data) && fsop[old(nfsop) + 2] == 3 && fsopok[old(nfsop) + 2] && fsopfile[old(nfsop) + 2] == temporary && fsop[old(nfsop) + 3] == 4 && fsopok[old(nfsop) + 3] && fsopname[old(nfsop) + 3] == fname(temporary)
+//@   at call os.Remove assert[cleanup] arg0 == fname(temporary) && fsopok[old(nfsop)] && fsopfile[old(nfsop)] == temporary
+//@   ensures[success] result == nil ==> nfsop == old(nfsop) + 5 && fsop[old(nfsop)] == 1 && fsop[old(nfsop) + 1] == 2 && fsop[old(nfsop) + 2] == 3 && fsop[old(nfsop) + 3] == 4 && fsop[old(nfsop) + 4] == 5 && fsopname2[old(nfsop) + 4] == path
+//@   ensures[success] result == nil ==> forall k in old(nfsop)..nfsop :: fsopok[k]
+//@   ensures[success] result == nil ==> fsopnum[old(nfsop) + 1] == len(data) && fsopnum[old(nfsop) + 3] == permissions
+//@   ensures[failure] result != nil ==> forall k in old(nfsop)..nfsop :: !(fsop[k] == 5 && fsopok[k])
+//@   ensures[cleanup] result != nil && fsopok[old(nfsop)] ==> nfsop >= old(nfsop) + 3 && fsop[nfsop - 1] == 6 && fsopname[nfsop - 1] == fsopname[old(nfsop)]
+//@   ensures[nocreate] result != nil && !fsopok[old(nfsop)] ==> nfsop == old(nfsop) + 1
+//@   ensures[target] nfsop > old(nfsop) && fsop[old(nfsop)] == 1 && (fsopok[old(nfsop)] ==> istemp(fsopname[old(nfsop)], pdir(path), atomicWriteTemporaryNamePrefix))
+//@   ensures[target] forall k in old(nfsop)..nfsop :: onTemp(k, old(nfsop))
+//@   ensures[target] forall k in old(nfsop)..nfsop :: fsop[k] == 5 ==> k == old(nfsop) + 4 && fsopname2[k] == path
